@@ -63,6 +63,7 @@ def spelling_case(draw):
     w = dict(WEIGHTS[L], special=5, polycyclic=3 if L in ('BensonGA', 'PPY') else 1)
     w['witness' if L not in ('BensonGA', 'PPY') else 'witness-gas'] = 4
     w['large' if L not in ('BensonGA', 'PPY') else 'large-gas'] = 2
+    w['remapped' if L not in ('BensonGA', 'PPY') else 'remapped-gas'] = 3
     smi = draw(molgen.mixed(w, metal='Ru' if L == 'XieGA2022' else 'Pt', max_heavy=draw(st.sampled_from([5, 8, 12, 20]))))
     return dict(kind='spellings', lib=L, smiles=smi, seed=draw(st.integers(0, 10 ** 6)), n=draw(st.sampled_from([6, 10, 20])))
 
